@@ -1,4 +1,6 @@
 """C06 — a known master curve is recovered from its shifted pieces, through the whole CLI."""
+import os
+
 from . import pipeline as P
 
 THEOREMS = [
@@ -71,11 +73,47 @@ def one(ctx, tr, zstep):
                     "average_recession_time": t["average_recession_time"][:4], "average_rising_depth": t["average_rising_depth"][:4]}, limit=2)
 
 
+def fresh_process_workflow(ctx, tr, zstep):
+    """The same workflow with one fresh interpreter per command, as a user runs it: the dataset must be
+    identical to the one produced by the in-process calls (no state may leak between commands)."""
+    from . import cli
+    ob = "workflow run as separate processes (bin/spowtd) = workflow run in-process, table by table"
+    w = P.run_workflow(ctx, tr.rows(), tr.s, tr.j, zstep)
+    files = cli.write_dataset(ctx.tmp, "sub", *tr.rows())
+    db = ctx.scratch("sub.sqlite3")
+    cmds = [["load", db, "-p", files[0], "-e", files[1], "-z", files[2], "--timezone", "UTC"],
+            ["classify", db, "-s", repr(tr.s), "-j", repr(tr.j)], ["set-zeta-grid", db, "-d", repr(zstep)],
+            ["rise", db], ["recession", db]]
+    status = {}
+    for c in cmds:
+        status[c[0]] = cli.run_subprocess(c)
+    got = cli.dump(db)
+    for p_ in list(files) + [db]:
+        try:
+            os.remove(p_)
+        except OSError:
+            pass
+    same_status = all((status[k][0] == "ok") == (w["status"].get({"set-zeta-grid": "grid"}.get(k, k), ("x",))[0] == "ok") for k in status)
+    diff = [name for name in got if got[name] != w["tables"][name]]
+    ctx.case(("c06-subprocess", tr.describe(), zstep), True)
+    ctx.obligation(ob, same_status and not diff)
+    if not same_status or diff:
+        ctx.violation("impl-violation", "c06Holds", {
+            "input": {"truth": tr.describe(), "zeta_step": zstep},
+            "impl": {"separate_processes": {k: list(v) for k, v in status.items()},
+                     "in_process": {k: list(v) for k, v in w["status"].items()}},
+            "oracle": {"name": "c06Holds", "result": False,
+                       "witness": {"why": "the workflow gives a different dataset when each command runs in its own process",
+                                   "tables_differing": diff}}})
+
+
 def run(ctx):
     n = 40 if ctx.tier == "quick" else 1000
     for _ in range(n):
         tr = P.gen_truth(ctx.rng)
         one(ctx, tr, ctx.rng.choice([1.0, 0.5, 2.0, 2.5]))
+    for _ in range(2 if ctx.tier == "quick" else 20):
+        fresh_process_workflow(ctx, P.gen_truth(ctx.rng, noise=ctx.rng.choice([0.0, 0.4])), ctx.rng.choice([1.0, 0.5, 2.0]))
 
 
 def replay(ctx, doc):
